@@ -6,6 +6,7 @@ fn main() {
     let code = match args.prop.as_str() {
         "C01" | "C02" | "C03" | "C06" | "C07" | "C08" => e1::run(&args),
         "C31" => e5::c31(&args),
+        "C28" => e5::c28(&args),
         other => {
             eprintln!("no check for {other}");
             2
